@@ -155,6 +155,21 @@ class C09:
                 raise AnalysisError("result of SELECT at %s is not bound to a cursor variable" % ctx.line(f, call))
             loops = [n for n in ctx.own_nodes(f) if isinstance(n, ast.For) and pat.match("%s.fetchall()" % cur, n.iter) is not None
                      or isinstance(n, ast.For) and pat.match(cur, n.iter) is not None]
+            if not loops and f.name == "read":
+                # first-row access without a loop: `if rows: return rows[0][k]` - fine as long as nothing but 'there is a row' is tested
+                want = st.columns.index("serialization") if "serialization" in st.columns else None
+                rets = [n for n in ctx.own_nodes(f) if isinstance(n, ast.Return) and n.value is not None and any(isinstance(x, ast.Name) and x.id == cur for x in ast.walk(n.value))]
+                if not rets:
+                    rep.violation("C09.R3", key, ctx.line(f, call), "read() never returns a value taken from the selected rows", func=f.qname)
+                for r in rets:
+                    shape = pat.match("%s[0][$K]" % cur, r.value)
+                    okk = shape is not None and isinstance(shape["K"], ast.Constant) and shape["K"].value in (want, want - len(st.columns))
+                    facts = ctx.facts_at(f, r)
+                    tested_value = [t for (t, p_) in facts if ("%s[0]" % cur) in t]
+                    rep.check("C09.R3", key + "|return", ctx.line(f, r), okk and not tested_value, "returns column %s of the first row whenever there is a row" % want,
+                              "read() returns `%s` under %s: the stored value itself is tested (a falsy stored value - b'', the cursor 0 - reads back as 'no such row') or "
+                              "it is not the serialization column" % (ast.unparse(r.value), sorted(facts)), func=f.qname)
+                continue
             if not loops:
                 raise AnalysisError("rows of SELECT at %s are not iterated with a for loop" % ctx.line(f, call))
             for lp in loops:
@@ -505,3 +520,13 @@ def run(ctx: Ctx, rep: Report, tier: str):
     rep.rule("C09.R12", "per-tag data (cursor, walk marker) behaves as one map entry: deleting the tag removes every stored row of it, writing it updates the "
              "stored row when there is one (the id cache is filled from storage first) - never a second row", 2)
     section(rep, lambda: data_rows_follow_storage(ctx, rep, "C09.R12"))
+    rep.rule("C09.R13", "tags are compared exactly: the table definition gives no column a COLLATE clause and `tag` is a plain TEXT NOT NULL column (two tags that differ only in "
+             "case - two syncs rooted at /Docs and /docs sharing one file - never see each other's rows)", 1)
+    for f_, call_, st_, _ in c.stmts:
+        if st_.kind == "create_table":
+            txt = st_.text
+            cols = txt[txt.index("(") + 1: txt.rindex(")")]
+            tagdef = [x.strip() for x in cols.split(",") if x.strip().lower().startswith("tag ")]
+            okc = "collate" not in txt.lower() and len(tagdef) == 1 and tagdef[0].lower().split() == ["tag", "text", "not", "null"]
+            rep.check("C09.R13", "schema|tag-column", ctx.line(f_, call_), okc, "tag TEXT NOT NULL, no collation",
+                      "the table is created as `%s`: the tag column (%s) is not compared byte for byte - rows of one tag are read, updated and deleted through another tag" % (txt[:120], tagdef))
